@@ -6,7 +6,7 @@ Import ListNotations.
 
 Theorem C06_reject_no_handler : forall ps i,
   existsb (fun p => negb (passes p)) ps = true ->
-  exists k, wrapper i ps = [WErr (i + k)] /\ k < length ps /\
+  exists k, wrapper i ps = [WErr (i + k)] /\ k < List.length ps /\
             forallb passes (firstn k ps) = true /\
             option_map passes (nth_error ps k) = Some false.
 Proof. exact reject_no_handler. Qed.
@@ -64,3 +64,37 @@ Theorem C06_duplicate_declarations_rejected : forall (A : Type) (g l out : list 
   combine_params g l = Some out -> NoDup (map fst l).
 Proof. exact @local_duplicates_rejected. Qed.
 Print Assumptions C06_duplicate_declarations_rejected.
+
+(** Query parameters next to a form-encoded body (POST / PUT / PATCH operations): a query parameter is looked up in the
+    query string.  The body's fields do not matter, whatever they are called: a required parameter missing from the query
+    string is rejected even when the body has a field of its name, and a complete, well-formed query string is accepted
+    whatever the body holds.  Reading through net/http's FormValue (body first) is refuted in both directions.
+    (cases_C06_form ties [qwrapper read_query] to the seven compiled wrappers.) *)
+Theorem C06_form_body_is_irrelevant : forall decl q b b',
+  qwrapper read_query decl {| in_query := q; in_body := b |} = qwrapper read_query decl {| in_query := q; in_body := b' |}.
+Proof. exact body_is_irrelevant. Qed.
+Print Assumptions C06_form_body_is_irrelevant.
+
+Theorem C06_missing_required_query_parameter_rejected : forall decl r name,
+  In (name, true) decl -> found (in_query r) name = Absent ->
+  handler_called (qwrapper read_query decl r) = false.
+Proof. exact missing_required_query_parameter_rejected. Qed.
+Print Assumptions C06_missing_required_query_parameter_rejected.
+
+Theorem C06_complete_query_accepted : forall decl r,
+  (forall d, In d decl -> found (in_query r) (fst d) = Binds \/ (snd d = false /\ found (in_query r) (fst d) = Absent)) ->
+  qwrapper read_query decl r = [WHandler].
+Proof. exact complete_query_accepted. Qed.
+Print Assumptions C06_complete_query_accepted.
+
+Theorem C06_form_value_refuted :
+  exists decl r name, In (name, true) decl /\ found (in_query r) name = Absent
+                      /\ handler_called (qwrapper read_form_value decl r) = true.
+Proof. exact form_value_refuted. Qed.
+Print Assumptions C06_form_value_refuted.
+
+Theorem C06_form_value_rejects_complete_query_refuted :
+  exists decl r, (forall d, In d decl -> found (in_query r) (fst d) = Binds)
+                 /\ handler_called (qwrapper read_form_value decl r) = false.
+Proof. exact form_value_rejects_complete_query_refuted. Qed.
+Print Assumptions C06_form_value_rejects_complete_query_refuted.
